@@ -228,7 +228,7 @@ def _run(ctx, work):
         outcomes[o['st']] = outcomes.get(o['st'], 0) + 1
     ctx.coverage.update({
         'states': r1.distinct + r2.distinct, 'transitions': r1.generated + r2.generated, 'traces_validated_against_impl': len(obs),
-        'forms': 64, 'texts_one_mutation': n1, 'texts_deeper': n2, 'whole_program_texts': len(whole), 'outcomes': outcomes, 'verdicts': stats,
+        'forms': 68, 'texts_one_mutation': n1, 'texts_deeper': n2, 'whole_program_texts': len(whole), 'outcomes': outcomes, 'verdicts': stats,
         'samples': [{'text': next(iter(texts))}] if texts else [],
     })
 
